@@ -63,11 +63,12 @@ class err_iter(object):
                     raise IterOutOfBounds
                 if not node.is_closed():
                     raise IterOutOfBounds
+                if node.id == 'ROOT':
+                    # stay on the closed interchange: a later one is its next sibling
+                    raise IterOutOfBounds
                 if self.cur_node in self.visit_stack:
                     del self.visit_stack[-1]
                 self.cur_node = node
-                if node.id == 'ROOT':
-                    raise IterOutOfBounds
                 #    raise IterDone
 
     def get_cur_node(self):
